@@ -43,7 +43,7 @@ for (pid, mk), det in sorted(detected.items()):
     }
     meta['quick_checks_run'] = det['ran']
     meta['detected_by_quick_checks'] = det['caught']
-    meta['how_detection_was_run'] = 'tools/mutant.sh <patch> <ID..> : git -C /repo apply; ./check <ID> quick; git -C /repo reset --hard'
+    meta['how_detection_was_run'] = 'tools/mutant.sh <patch> <ID..> : git -C /repo apply; ./check <ID> quick; git -C /repo reset --hard' if rnd < 4 else 'tools/mutant_lanes.sh: git apply (patch.rebased.diff where present) to /repo or to a scratch worktree used through VERIF_REPO by a mirror of /verif; ./check <own ID> quick, then the neighbouring checks until one reports a violation; git reset --hard'
     if det['problem']: meta['note'] = 'patch did not apply to the current /repo HEAD'
     json.dump(meta, open(os.path.join(dst, 'meta.json'), 'w'), indent=1, ensure_ascii=False)
     print(pid, mk, det['caught'] or 'MISSED', '(problem)' if det['problem'] else '')
